@@ -214,6 +214,18 @@ pub struct Chain {
     /// which module URLs this chain's token factory answers to
     pub tf_modules: Vec<String>,
     transfers_seen_in_tx: u32,
+    /// the last signed / hook transaction submitted (for metamorphic re-submission on another copy)
+    pub last_tx: Option<RecordedTx>,
+}
+
+#[derive(Clone, Debug)]
+pub struct RecordedTx {
+    pub sender: String,
+    pub funds: Vec<Coin>,
+    pub msg: ExecuteMsg,
+    /// (channel, native sender, denom here, amount) when it came in through ibc-hooks
+    pub hook: Option<(String, String, String, u128)>,
+    pub time_ns: u64,
 }
 
 pub const OSMOSIS_TF: &str = "/osmosis.tokenfactory.v1beta1.";
@@ -243,6 +255,7 @@ impl Chain {
             fail_transfer: None,
             tf_modules: vec![if cfg!(feature = "miniwasm") { MINIWASM_TF.to_string() } else { OSMOSIS_TF.to_string() }],
             transfers_seen_in_tx: 0,
+            last_tx: None,
         }
     }
 
@@ -328,6 +341,7 @@ impl Chain {
 
     /// A signed transaction carrying one MsgExecuteContract.
     pub fn execute(&mut self, sender: &str, funds: &[Coin], msg: ExecuteMsg) -> TxOutcome {
+        self.last_tx = Some(RecordedTx { sender: sender.to_string(), funds: funds.to_vec(), msg: msg.clone(), hook: None, time_ns: self.time_ns });
         self.run_tx(|ch, eff| ch.execute_inner(sender, funds, msg, eff))
     }
 
@@ -745,6 +759,13 @@ impl Chain {
     ) -> (String, TxOutcome) {
         let inter = crypto::hooks_sender(channel, native_sender, &self.prefix);
         let inter2 = inter.clone();
+        self.last_tx = Some(RecordedTx {
+            sender: inter.clone(),
+            funds: vec![Coin::new(amount, denom_here)],
+            msg: msg.clone(),
+            hook: Some((channel.to_string(), native_sender.to_string(), denom_here.to_string(), amount)),
+            time_ns: self.time_ns,
+        });
         let coin = Coin::new(amount, denom_here);
         let out = self.run_tx(|ch, eff| {
             credit(&mut ch.w.bank, &inter2, denom_here, amount);
